@@ -54,6 +54,9 @@ fn main() {
     if let Some(out) = arg(&args, "--out") {
         watch::open_out(&out);
     }
+    if let Ok(path) = std::env::var("RDBMON_LOG") {
+        install_file_logger(&path);
+    }
     watch::install_panic_hook(verbose);
     watch::set_stall_limit(Duration::from_secs(props::stall_limit_secs(&prop)));
     watch::start_watchdog();
@@ -107,4 +110,32 @@ fn main() {
         watch::emit(&line);
     }
     watch::emit(&json!({"t": "done", "shard": shard}));
+}
+
+
+/// Diagnostic only: raindb's own `log` output (debug level) to a file, one line per record.
+struct FileLogger(parking_lot::Mutex<std::io::BufWriter<std::fs::File>>);
+
+impl log::Log for FileLogger {
+    fn enabled(&self, _: &log::Metadata) -> bool {
+        true
+    }
+    fn log(&self, record: &log::Record) {
+        use std::io::Write;
+        let t = std::thread::current();
+        let _ = writeln!(self.0.lock(), "[{}] {} {}", t.name().unwrap_or("?"), record.level(), record.args());
+    }
+    fn flush(&self) {
+        use std::io::Write;
+        let _ = self.0.lock().flush();
+    }
+}
+
+fn install_file_logger(path: &str) {
+    if let Ok(f) = std::fs::File::create(path) {
+        let logger: &'static FileLogger = Box::leak(Box::new(FileLogger(parking_lot::Mutex::new(std::io::BufWriter::new(f)))));
+        if log::set_logger(logger).is_ok() {
+            log::set_max_level(log::LevelFilter::Debug);
+        }
+    }
 }
